@@ -18,7 +18,7 @@ def main(ctx):
         files.append(cf)
         cmds.append("%s cross --seed %d --count %d --tier %s --out %s --shard %d/%d%s"
                     % (h, (ctx.seed * 1000003 + s * 101 + 23) % (2 ** 62), per, ctx.tier, cf, s, NCPU, ext))
-    res = run_parallel(cmds, 600)
+    res = run_parallel(cmds, 1500)
     n_cases = n_cfg = n_seq = n_groups = n_ext = 0
     distinct = set()
     samples = []
